@@ -196,3 +196,25 @@ Theorem C20_middle_array_refines_sorted_records : forall m, 0 <= m_base m -> 0 <
     | None => forall i, b <= i < e -> word_of recs i <> word
     end.
 Proof. exact mid_refines. Qed.
+
+(* C20: BitPackedMiddle<ArrayBhiksha> -- records keep only the low m_nb bits of the next pointer inline, the rest lives in the offset
+        table -- is the SAME sorted record array: for every non-decreasing, non-negative pointer sequence and every number of inline
+        bits, Find returns index, payload and the FULL child range [next_p, next_{p+1}), and reports absence exactly when no record
+        of the range holds the word. *)
+From Kenlm Require Import C20.MiddleAProofs C03.BhikshaModel C03.BhikshaProofs.
+Theorem C20_middle_array_bhiksha_refines_sorted_records : forall m, 0 <= m_base m -> 0 <= m_wb m <= 57 -> 0 <= m_qb m <= 57 -> 0 <= m_nb m <= 57 ->
+  forall recs next_end mem0,
+  Forall (fun r => 0 <= fst (fst r) < 2 ^ m_wb m /\ 0 <= snd (fst r) < 2 ^ m_qb m) recs ->
+  sorted (map snd recs ++ [next_end]) -> nonneg (map snd recs ++ [next_end]) ->
+  (forall i, 8 * m_base m <= i < 8 * m_base m + (Z.of_nat (length recs) + 1) * m_tb m -> Z.testbit mem0 i = false) ->
+  forall fuel word lo hi, 0 <= lo -> lo <= hi -> hi <= Z.of_nat (length recs) -> m_max_vocab m < 2 ^ 32 ->
+  (forall i j, lo <= i -> i <= j -> j < hi -> word_of recs i <= word_of recs j) ->
+  (forall i, lo <= i < hi -> word_of recs i <= m_max_vocab m) -> 0 <= word <= m_max_vocab m -> hi - lo <= 2 ^ 32 ->
+  (Z.of_nat fuel >= Z.max 1 (hi - lo + 1)) ->
+  exists res, midA_find m fuel (length (map snd recs ++ [next_end])) (stA m recs next_end mem0) word lo hi = Some res /\
+    match res with
+    | Some (p, pay, cb, ce) => lo <= p < hi /\ word_of recs p = word /\ pay = pay_of recs p /\
+                               cb = nextA recs next_end p /\ ce = nextA recs next_end (p + 1)
+    | None => forall i, lo <= i < hi -> word_of recs i <> word
+    end.
+Proof. exact midA_refines. Qed.
